@@ -10,7 +10,7 @@ EXPLANATION = ('(R17.1) every removal call site in the crate is a file unlink: n
                '(R17.2) on the state graph of raw_cache::prune, the push that adds a listed entry to the eviction candidates '
                'handed to the planner is dominated by the is_dir==false outcome on that entry\'s metadata AND by the reject '
                'edge of a dot-prefix test (or the name validator) on that entry\'s file name; (R17.3) in the temp-directory '
-               'cleanup the unlink is dominated by the true edge of mtime < now - C (or an equivalent ordering) with C the '
+               'cleanup the unlink is dominated by the true edge of mtime < now - C (or an equivalent ordering) on the modification time of the very entry being unlinked, with C the '
                'evaluated constant >= 3600 s in the library configuration; (R17.4) the cleanup\'s only mutating primitive is '
                'unlink(temp dir + listed name), and maintenance\'s are unlink / re-stamp of (directory + listed name).')
 FLOORS = {'R17.1': 2, 'R17.2': 2, 'R17.3': 3, 'R17.4': 2}
@@ -159,6 +159,24 @@ def r17_3_4(ctx):
             return False
         return want.get(op) == ev['eq']
     A = q.edges(old_enough)
+
+    # the modification time that is compared must be that of the very entry being unlinked (not, say, the directory's)
+    def entries_of(v):
+        # an element drawn from (an adapter over) a directory stream: `..::next(.. read_dir(..) ..)`
+        if v is None:
+            return set()
+        return {x for x in values.subs(v) if VAL[x][0] == 'sym' and VAL[x][1] == 'app' and VAL[x][2].endswith('::next')
+                and any(VAL[y][0] == 'sym' and VAL[y][1] == 'app' and prims.classify(VAL[y][2])[0] == 'list_dir' for y in values.subs(x))}
+    rm_entries = set()
+    for e in rm:
+        rm_entries |= entries_of(arg_role(q.E[e][2], 'path'))
+
+    def about_removed_entry(e):
+        t = VAL[q.E[e][2]['val']]
+        side = t[3] if is_mtime(t[3]) else t[4]
+        return bool(entries_of(side) & rm_entries)
+    A_all = A
+    A = [e for e in A if about_removed_entry(e)]
     anycmp = q.edges(lambda ev: ev['k'] == 'branch' and VAL[ev['val']][0] == 'sym' and VAL[ev['val']][1] == 'cmp' and
                      (is_mtime(VAL[ev['val']][3]) or is_mtime(VAL[ev['val']][4])))
     out.append(inst('R17.3', 'tempcleanup.age_direction', bool(A),
@@ -166,8 +184,8 @@ def r17_3_4(ctx):
                     'no branch of the form "mtime older than now - C" found (%d mtime comparisons)' % len(anycmp)))
     bad = q.must_precede(A, rm)
     out.append(inst('R17.3', 'tempcleanup.age_dominates_unlink', not bad,
-                    'every unlink in temp cleanup is dominated by the "older than the limit" edge' if not bad else
-                    'a temporary file can be unlinked without having been found older than the age limit',
+                    'every unlink in temp cleanup is dominated by the "older than the limit" edge on the unlinked entry\'s own mtime' if not bad else
+                    'a temporary file can be unlinked without its own modification time having been found older than the age limit (%d age tests, %d about the entry)' % (len(A_all), len(A)),
                     path=witness_path(q, bad[0], blocked=A) if bad else []))
     # R17.4 provenance of what is removed / re-stamped
     seen = set()
